@@ -21,7 +21,7 @@ from ..simkit.simalloc import SimAlloc
 from ..simkit.store import BUFFER_SIZES
 
 PID = "C14"
-TRACK_FAULTS = ["eacces", "enospc", "eio", "eio_close", "emfile"]
+TRACK_FAULTS = ["eacces", "enospc", "eio", "eio_close", "emfile", "eintr"]
 
 
 class Spy:
@@ -79,7 +79,7 @@ class World:
     PROBES_EXPECTED = ["rejected-run", "rejected-batch-length", "rejected-batch-entry", "rejected-dist", "batch-ok", "run-ok",
                        "dist-exact", "dist-sampled", "wf-ok", "peer-fault-mid-batch", "over-delivery", "tracker-record-ok",
                        "tracker-bitstrings", "tracker-disk-fault", "tracker-after-disk-fault", "multi-segment", "empty-circuit",
-                       "idle-qubits", "symbolic-circuit-refused", "call-after-reject", "numpy-bit-backend", "tuple-arguments", "ephemeral-circuit-objects", "alloc-fault"]
+                       "idle-qubits", "symbolic-circuit-refused", "call-after-reject", "numpy-bit-backend", "tuple-arguments", "ephemeral-circuit-objects", "alloc-fault", "peer-fault-after-completed-circuits"]
 
     # ------------------------------------------------------------ generation
     def gen_plan(self, seed, tier):
@@ -552,11 +552,16 @@ class World:
         tot = (sum(d[0] for d in deltas), sum(d[1] for d in deltas))
         if f == "peer":
             ctx.probe("peer-fault-mid-batch")
-            self._expect_counters(ctx, B, (B["jobs"], B["circs"]), (B["jobs"] + tot[0], B["circs"] + tot[1]), what + ":peer-fault")
-            if B["spec"]["kind"] == "shot":
-                done = len(B["obj"].calls) - peers - 1  # circuits completed before the failing one
-                j, c = self._read_counters(B)
-                ctx.check((j, c) == (B["jobs"], B["circs"]) and True, "counter", "noop", "")
+            if B["spec"]["kind"] == "shot" and isinstance(res, BackendFault):
+                # the stub peer knows exactly how far the batch got: `done` circuits ran to completion before the
+                # failing invocation - they were run, so they are counted; the failing one may or may not be
+                done = len(B["obj"].calls) - peers - 1
+                self._expect_counters(ctx, B, (B["jobs"] + done, B["circs"] + done), (B["jobs"] + done + 1, B["circs"] + done + 1),
+                                      what + ":peer-fault-after-" + ("some" if done else "none"))
+                if done:
+                    ctx.probe("peer-fault-after-completed-circuits")
+            else:
+                self._expect_counters(ctx, B, (B["jobs"], B["circs"]), (B["jobs"] + tot[0], B["circs"] + tot[1]), what + ":peer-fault")
             if R is not B:
                 j, c = self._read_counters(R)
                 ctx.check(j >= R["jobs"] and c >= R["circs"], "counter", "decreased", f"{what}: tracker counters decreased")
